@@ -155,6 +155,7 @@ enum Out {
 impl<'a> Cx<'a> {
     /// Build `spec`, consume `k` bytes, run `f`, return (outcome, bytes left afterwards).
     fn exec(&mut self, spec: &Spec, k: usize, f: &dyn Fn(&mut Tree) -> Result<u128, TryGetError>) -> Result<(Out, Vec<u8>), String> {
+        oracle::sys::set_crash_note(&format!("typed buffer={:?} consumed_before={}", spec, k));
         if self.tracked {
             oracle::begin_execution(self.parity_odd);
         }
